@@ -27,6 +27,8 @@ Proof.
   - inversion H; subst. apply andb_true_iff. split; [apply str_eqb_eq|apply Nat.eqb_eq]; reflexivity.
   - apply Nat.eqb_eq in H. subst; reflexivity.
   - inversion H; subst. apply Nat.eqb_eq. reflexivity.
+  - apply str_eqb_eq in H. subst; reflexivity.
+  - inversion H; subst. apply str_eqb_eq. reflexivity.
 Qed.
 
 (* ---- ordered dicts ------------------------------------------------------------ *)
@@ -113,8 +115,9 @@ Qed.
 End ODP.
 
 (* ---- entries and keys ------------------------------------------------------------ *)
-(* an entry that is keyed by its own key: neither comment nor whitespace *)
-Definition keyed (e : centry) : bool := negb (is_comment e) && negb (is_white e).
+(* an entry that is keyed by its own key: neither comment nor whitespace nor section *)
+Definition keyed (e : centry) : bool :=
+  negb (is_comment e) && negb (is_white e) && negb (is_section e).
 
 (* the dict key fits the entry (get_key_value) *)
 Definition key_ok (p : dkey * centry) : Prop :=
@@ -122,6 +125,7 @@ Definition key_ok (p : dkey * centry) : Prop :=
   | DK s => keyed (snd p) = true /\ c_key (snd p) = s
   | DC v n => is_comment (snd p) = true /\ c_key (snd p) = v
   | DW i => is_white (snd p) = true /\ c_id (snd p) = i
+  | DS s => is_section (snd p) = true /\ c_key (snd p) = s
   end.
 
 Definition nw (p : dkey * centry) : bool := negb (is_white (snd p)).
@@ -131,17 +135,20 @@ Lemma key_ok_nw p : key_ok p -> nw p = nwk (fst p).
 Proof.
   destruct p as [k e]. unfold key_ok, nw, nwk, keyed. cbn.
   destruct k; cbn; intros [H1 H2].
-  - apply andb_true_iff in H1. destruct H1 as [_ H1]. exact H1.
+  - apply andb_true_iff in H1. destruct H1 as [H1 _].
+    apply andb_true_iff in H1. destruct H1 as [_ H1]. exact H1.
   - unfold is_comment, is_white in *. destruct (c_kind e); try discriminate; reflexivity.
   - rewrite H1. reflexivity.
+  - unfold is_section, is_white in *. destruct (c_kind e); try discriminate; reflexivity.
 Qed.
 
 Lemma key_ok_white k e : key_ok (k, e) -> is_white e = true -> k = DW (c_id e).
 Proof.
   unfold key_ok, keyed. cbn. destruct k; intros [H1 H2] Hw.
-  - rewrite Hw in H1. rewrite andb_false_r in H1. discriminate.
+  - rewrite Hw in H1. cbn in H1. rewrite andb_false_r in H1. discriminate.
   - unfold is_comment, is_white in *. destruct (c_kind e); discriminate.
   - subst. reflexivity.
+  - unfold is_section, is_white in *. destruct (c_kind e); discriminate.
 Qed.
 
 (* a well-formed dict *)
@@ -165,7 +172,7 @@ Lemma key_values_key_ok es : forall c, Forall key_ok (key_values es c).
 Proof.
   induction es as [|e es IH]; intros c; cbn; [constructor|].
   unfold get_key_value. destruct (c_kind e) eqn:Ek; constructor; try apply IH;
-    unfold key_ok, keyed, is_comment, is_white; cbn; rewrite Ek; auto.
+    unfold key_ok, keyed, is_comment, is_white, is_section; cbn; rewrite Ek; auto.
 Qed.
 
 Lemma key_values_values es : forall c, map snd (key_values es c) = es.
@@ -191,10 +198,20 @@ Lemma key_values_DK es : forall c s, In (DK s) (map fst (key_values es c)) ->
   In s (map c_key (filter keyed es)).
 Proof.
   induction es as [|e es IH]; intros c s; cbn; [contradiction|].
-  unfold get_key_value, keyed, is_comment, is_white.
+  unfold get_key_value, keyed, is_comment, is_white, is_section.
   destruct (c_kind e) eqn:Ek; cbn;
     try (intros [H|H]; [inversion H; left; reflexivity|right; eapply IH; exact H]);
     (intros [H|H]; [discriminate|eapply IH; exact H]).
+Qed.
+
+Lemma key_values_DS es : forall c s, In (DS s) (map fst (key_values es c)) ->
+  In s (map c_key (filter is_section es)).
+Proof.
+  induction es as [|e es IH]; intros c s; cbn; [contradiction|].
+  unfold get_key_value, is_section.
+  destruct (c_kind e) eqn:Ek; cbn;
+    try (intros [H|H]; [discriminate|eapply IH; exact H]).
+  intros [H|H]; [inversion H; left; reflexivity|right; eapply IH; exact H].
 Qed.
 
 Lemma key_values_DW es : forall c i, In (DW i) (map fst (key_values es c)) ->
@@ -207,25 +224,30 @@ Proof.
   intros [H|H]; [inversion H; left; reflexivity|right; eapply IH; exact H].
 Qed.
 
-(* entries with distinct keys and distinct whitespace identities get distinct dict keys *)
+(* entries with distinct keys, distinct section names and distinct whitespace
+   identities get distinct dict keys *)
 Definition uniq (es : list centry) : Prop :=
-  NoDup (map c_key (filter keyed es)) /\ NoDup (map c_id (filter is_white es)).
+  NoDup (map c_key (filter keyed es)) /\ NoDup (map c_id (filter is_white es)) /\
+  NoDup (map c_key (filter is_section es)).
 
 Lemma key_values_nodup es : uniq es -> forall c, NoDup (map fst (key_values es c)).
 Proof.
-  unfold uniq. induction es as [|e es IH]; intros [Hk Hw] c; cbn; [constructor|].
+  unfold uniq. induction es as [|e es IH]; intros (Hk & Hw & Hs) c; cbn; [constructor|].
   unfold get_key_value.
   assert (Hrest : forall c', NoDup (map fst (key_values es c'))).
-  { intros c'. apply IH. split.
+  { intros c'. apply IH. repeat split.
     - cbn in Hk. destruct (keyed e); [inversion Hk; assumption|exact Hk].
-    - cbn in Hw. destruct (is_white e); [inversion Hw; assumption|exact Hw]. }
+    - cbn in Hw. destruct (is_white e); [inversion Hw; assumption|exact Hw].
+    - cbn in Hs. destruct (is_section e); [inversion Hs; assumption|exact Hs]. }
   destruct (c_kind e) eqn:Ek; cbn; constructor; try apply Hrest;
     try (intros Hin; apply key_values_DK in Hin; cbn in Hk;
-         unfold keyed, is_comment, is_white in Hk; rewrite Ek in Hk; cbn in Hk;
+         unfold keyed, is_comment, is_white, is_section in Hk; rewrite Ek in Hk; cbn in Hk;
          inversion Hk; contradiction).
   - intros Hin. apply key_values_DC in Hin. rewrite cget_set_same in Hin. lia.
   - intros Hin. apply key_values_DW in Hin. cbn in Hw. unfold is_white in Hw at 1.
     rewrite Ek in Hw. cbn in Hw. inversion Hw; contradiction.
+  - intros Hin. apply key_values_DS in Hin. cbn in Hs. unfold is_section in Hs at 1.
+    rewrite Ek in Hs. cbn in Hs. inversion Hs; contradiction.
 Qed.
 
 Lemma parse_resource_uniq es : uniq es -> parse_resource es = key_values es [].
@@ -649,7 +671,8 @@ Qed.
 
 (* ---- numbering ------------------------------------------------------------------------------------ *)
 Definition strip (e : centry) := (c_kind e, c_key e, c_text e, c_val e).
-Definition ukeys (es : list centry) : Prop := NoDup (map c_key (filter keyed es)).
+Definition ukeys (es : list centry) : Prop :=
+  NoDup (map c_key (filter keyed es)) /\ NoDup (map c_key (filter is_section es)).
 
 Lemma number_strip es : forall ctr, map strip (number ctr es) = map strip es.
 Proof. induction es as [|e es IH]; intros ctr; cbn; [reflexivity|]. rewrite IH. reflexivity. Qed.
@@ -675,6 +698,16 @@ Proof.
   rewrite keyed_renumber. destruct (keyed e); cbn; rewrite IH; reflexivity.
 Qed.
 
+Lemma section_renumber e i : is_section (mkc (c_kind e) (c_key e) (c_text e) (c_val e) i) = is_section e.
+Proof. destruct e; reflexivity. Qed.
+
+Lemma number_sections es : forall ctr,
+  map c_key (filter is_section (number ctr es)) = map c_key (filter is_section es).
+Proof.
+  induction es as [|e es IH]; intros ctr; cbn [number filter]; [reflexivity|].
+  rewrite section_renumber. destruct (is_section e); cbn; rewrite IH; reflexivity.
+Qed.
+
 Lemma number_white_ids es : forall ctr i,
   In i (map c_id (filter is_white (number ctr es))) -> ctr <= i < ctr + length es.
 Proof.
@@ -693,7 +726,8 @@ Qed.
 
 Lemma number_uniq es ctr : ukeys es -> uniq (number ctr es).
 Proof.
-  intros H. split; [rewrite number_keyed; exact H|apply number_white_nodup].
+  intros [H1 H2]. split; [rewrite number_keyed; exact H1|].
+  split; [apply number_white_nodup|rewrite number_sections; exact H2].
 Qed.
 
 Lemma parse_number_ws es ctr i : ukeys es ->
@@ -750,13 +784,21 @@ Proof.
     assert (str_eqb a a = true) by (apply str_eqb_eq; reflexivity). congruence.
 Qed.
 
+Lemma gkv_DK e c k :
+  dkey_eqb (DK k) (fst (fst (get_key_value e c))) = has_key k e /\
+  snd (fst (get_key_value e c)) = e.
+Proof.
+  unfold get_key_value, has_key, keyed, is_comment, is_white, is_section.
+  destruct (c_kind e); cbn; rewrite ?(str_eqb_sym k (c_key e)); auto.
+Qed.
+
 Lemma key_values_get es k : forall c,
   od_get dkey_eqb (DK k) (key_values es c) = find (has_key k) es.
 Proof.
-  induction es as [|e es IH]; intros c; cbn; [reflexivity|].
-  unfold get_key_value, has_key, keyed, is_comment, is_white.
-  destruct (c_kind e) eqn:Ek; cbn; rewrite ?(str_eqb_sym k (c_key e));
-    try (destruct (str_eqb (c_key e) k); [reflexivity|apply IH]); apply IH.
+  induction es as [|e es IH]; intros c; cbn [key_values find]; [reflexivity|].
+  destruct (gkv_DK e c k) as [H1 H2].
+  destruct (get_key_value e c) as [[k' e'] c']. cbn in *. subst e'. rewrite H1.
+  destruct (has_key k e); [reflexivity|apply IH].
 Qed.
 
 Lemma key_values_In_DK es e : forall c, In e es -> keyed e = true ->
@@ -764,7 +806,7 @@ Lemma key_values_In_DK es e : forall c, In e es -> keyed e = true ->
 Proof.
   induction es as [|a es IH]; intros c Hin Hk; [contradiction|].
   cbn. destruct Hin as [->|Hin].
-  - unfold get_key_value. unfold keyed, is_comment, is_white in Hk.
+  - unfold get_key_value. unfold keyed, is_comment, is_white, is_section in Hk.
     destruct (c_kind e); cbn in *; try discriminate; left; reflexivity.
   - destruct (get_key_value a c) as [p c'] eqn:E. cbn. right. apply IH; assumption.
 Qed.
@@ -803,6 +845,11 @@ Proof.
   destruct (find (has_key k) v); [reflexivity|exact IH].
 Qed.
 
+Lemma not_keyed e : is_comment e = true \/ is_white e = true \/ is_section e = true -> keyed e = false.
+Proof.
+  unfold keyed, is_comment, is_white, is_section. destruct (c_kind e); cbn; intuition discriminate.
+Qed.
+
 (* in a well-formed dict a keyed entry sits under its own key, once *)
 Lemma wf_count_key d k : wf d ->
   length (filter (has_key k) (dvalues d)) = if dmem (DK k) (dkeys d) then 1 else 0.
@@ -811,16 +858,16 @@ Proof.
   induction d as [|[k' e] d IH]; cbn; [reflexivity|].
   cbn in Hnd. inversion Hnd as [|? ? Hk' Hnd']; subst. inversion Hok as [|? ? He Hok']; subst.
   specialize (IH Hnd' Hok'). unfold key_ok in He. cbn in He.
-  destruct k' as [s|v n|i]; cbn.
+  destruct k' as [s|v n|i|s]; cbn.
   - destruct He as [He1 He2]. unfold has_key at 1. rewrite He1, He2. cbn.
     rewrite (str_eqb_sym k s). destruct (str_eqb s k) eqn:E; cbn.
     + apply str_eqb_eq in E. subst s. rewrite IH.
       destruct (dmem (DK k) (map fst d)) eqn:E2; [|reflexivity].
       apply dmem_In in E2. subst k. contradiction.
     + exact IH.
-  - destruct He as [He1 He2]. unfold has_key at 1, keyed. rewrite He1. cbn. exact IH.
-  - destruct He as [He1 He2]. unfold has_key at 1, keyed. rewrite He1.
-    rewrite andb_false_r. cbn. exact IH.
+  - destruct He as [He1 He2]. unfold has_key at 1. rewrite (not_keyed e) by auto. cbn. exact IH.
+  - destruct He as [He1 He2]. unfold has_key at 1. rewrite (not_keyed e) by auto. cbn. exact IH.
+  - destruct He as [He1 He2]. unfold has_key at 1. rewrite (not_keyed e) by auto. cbn. exact IH.
 Qed.
 
 Lemma wf_keyed_In d e : wf d -> In e (dvalues d) -> keyed e = true ->
@@ -830,8 +877,9 @@ Proof.
   destruct Hin as [[k e'] [Heq Hin]]. cbn in Heq. subst e'.
   rewrite Forall_forall in Hok. pose proof (Hok _ Hin) as H. unfold key_ok in H. cbn in H.
   apply (In_od_get dkey_eqb dkey_eqb_eq); [exact Hnd|].
-  destruct k as [s|v n|i].
+  destruct k as [s|v n|i|s].
   - destruct H as [_ H]. subst s. exact Hin.
-  - destruct H as [H _]. unfold keyed in Hk. rewrite H in Hk. discriminate.
-  - destruct H as [H _]. unfold keyed in Hk. rewrite H in Hk. rewrite andb_false_r in Hk. discriminate.
+  - destruct H as [H _]. rewrite (not_keyed e) in Hk by auto. discriminate.
+  - destruct H as [H _]. rewrite (not_keyed e) in Hk by auto. discriminate.
+  - destruct H as [H _]. rewrite (not_keyed e) in Hk by auto. discriminate.
 Qed.
